@@ -565,6 +565,10 @@ class ProbeEngine(object):
                 ch.sysram.alloc(4 * t.draw(2000), 5, 0)
             for _ in range(t.draw_small(3, 0.4)):
                 ch.rtr_alloc(1 + t.draw(400), 1 + t.draw(200))
+            if not ch.rtr_blocks and t.draw(4) == 0:
+                # reports every one of its 1024 entries as free
+                ch.rtr_entry0_reserved = False
+                w.probe("router_all_1024_free")
             ch.diag = [t.draw(1 << 32) for _ in range(16)]
             if xy != m.root:
                 k = t.draw(20 if n_chips < 30 else 40)
